@@ -524,6 +524,13 @@ int KSI_AsyncHandle_getSignature(const KSI_AsyncHandle *h, KSI_Signature **signa
 	}
 	KSI_ERR_clearErrors(h->ctx);
 
+	/* Only a received response can be turned into a signature: in any other state the response
+	 * context is empty or holds something else (a configuration). */
+	if (h->state != KSI_ASYNC_STATE_RESPONSE_RECEIVED) {
+		KSI_pushError(h->ctx, res = KSI_INVALID_STATE, "The handle does not hold a response.");
+		goto cleanup;
+	}
+
 	if (h->aggrReq != NULL) {
 		res = createSignature(h, &tmp);
 		if (res != KSI_OK) {
